@@ -223,6 +223,16 @@ Section Data.
     | Some l => load_all cs src did l
     end.
 
+  (* getWitnessChunk + sendChunks: a witness snapshot travels as ONE chunk that carries the
+     whole witness snapshot file [data] (rsm.GetWitnessSnapshot); no file is read *)
+  Definition witness_chunk (msg : ssmsg) (did : N) (data : D) : chunk :=
+    (mkCMeta (m_shard msg) (m_to msg) (m_from msg) 0 (dlen data) 1
+             (m_index msg) (m_term msg) witness_snapshot_filename (dlen data) did
+             0 1 false sfile0 transport_bin_version 0 true, data).
+  (* splitSnapshotMessage + sendChunks for either kind of message *)
+  Definition send_message (cs did : N) (src : dir) (wdata : D) (msg : ssmsg) : option (list chunk) :=
+    if m_witness msg then Some [witness_chunk msg did wdata] else send_snapshot cs did src msg.
+
   (* stream mode (rsm.ChunkWriter through a streaming job): one chunk per
      emitted block, ChunkId = FileChunkId = position, ChunkCount 0, then an
      empty chunk carrying LastChunkCount *)
